@@ -81,7 +81,7 @@ def random_datagrams(rnd, pool_ok, n):
             tag = "ptr-chain-%d" % m
         else:                                             # long names / many labels / big datagrams
             labels = []
-            for _ in range(rnd.choice([1, 3, 10, 60, 130])):
+            for _ in range(rnd.choice([1, 3, 10, 40])):
                 ln = rnd.choice([1, 2, 5, 63])
                 labels += [ln] + [rnd.choice(b"abcxyz019-") for _ in range(ln)]
             d = hdr(0x8180, 1, 1) + q + [192, 12, 0, 5, 0, 1, 0, 0, 0, 3, (len(labels) + 1) >> 8, (len(labels) + 1) & 255] + labels + [0]
@@ -121,20 +121,7 @@ def concretise(rnd, beh, pools, n=2, nested_pct=15):
         else:
             g = rnd.choice(pools[h["cls"]])
             steps.append({"o": "reply", "s": h["s"], "k": h["k"], "d": g["d"], "tag": h["cls"] + ":" + g["tag"]})
-    fix_nested(steps)
     return {"n": n, "steps": steps, "end_ticks": 40}
-
-
-def fix_nested(steps):
-    """A nested cancel must not name the lookup it is nested in (cancelling a lookup from inside its own callback
-    is outside the property's histories)."""
-    k = 0
-    for st in steps:
-        if st["o"] == "req":
-            k += 1
-            for op in st.get("nested", []):
-                if op["o"] == "cancel" and op["k"] == k:
-                    op["k"] = k + 1 if k == 1 else k - 1
 
 
 def random_history(rnd, pools, length):
@@ -160,7 +147,6 @@ def random_history(rnd, pools, length):
             steps.append(st)
             if rnd.randrange(100) < 25:                   # duplicated datagram
                 steps.append(dict(st))
-    fix_nested(steps)
     return {"n": n, "steps": steps, "end_ticks": 40}
 
 
@@ -260,7 +246,7 @@ def run(ctx):
     if ok:
         ev = [json.loads(x) for x in vlib.read_lines(tr, 1, 6)]
         ctx.sample({"kind": "recorded trace (first events of the datagram run)", "events": [{k: v for k, v in e.items() if k != "script"} for e in ev]})
-    rd = random_datagrams(rnd, [g["d"] for g in pools["ok"]], 1600 if q else 30000)
+    rd = random_datagrams(rnd, [g["d"] for g in pools["ok"]], 1200 if q else 30000)
     run_scripts(ctx, exe, datagram_scripts(rnd, rd), "rnddgrams", "%d random / mutated datagrams" % len(rd), replayed=False)
 
     # 2. lookups: every script of the bounded model (BFS), a sample of the next depth, deep random ones
@@ -271,13 +257,9 @@ def run(ctx):
     d4 = ctx.tlc_gen("Dns", "Gen_DnsLookup.tla", "Gen_DnsLookup_d4.cfg")
     d4.sort(key=json.dumps)
     if q:
-        d4 = rnd.sample(d4, 2500)
+        d4 = rnd.sample(d4, 3000)
     run_scripts(ctx, exe, [concretise(rnd, b, pools) for b in d4], "lookups4", "%d lookup scripts of depth 4" % len(d4))
-    deep = ctx.tlc_gen("Dns", "Gen_DnsLookup.tla", "Gen_DnsLookup_sim.cfg", simulate=(1000000, 14), timeout=6 if q else 40, workers=4,
-                       limit=1500 if q else 20000)
-    deep.sort(key=json.dumps)
-    run_scripts(ctx, exe, [concretise(rnd, b, pools, nested_pct=25) for b in deep], "lookupsim", "%d random deep lookup scripts" % len(deep))
-    hist = [random_history(rnd, pools, rnd.randrange(8, 40)) for _ in range(400 if q else 6000)]
+    hist = [random_history(rnd, pools, rnd.randrange(8, 40)) for _ in range(1200 if q else 12000)]
     run_scripts(ctx, exe, hist, "histories", "%d random histories (1-3 servers, duplicates, nested calls)" % len(hist), replayed=False)
 
     # 3. uninitialised reads: valgrind memcheck on a plain build, the hostile datagrams again (a subset in the quick tier)
